@@ -167,7 +167,7 @@ PUMP_END = ["rel p0", "c20run", "c20adv 200000000", "c20run", "rel x0"]
 def registry(workdir=None):
     U64 = "18446744073709551615"
     R = [
-        Opt("skip", "offset", ["3", "1", "5", "0", "8", "2"], inp=refd(lambda k: ["c20in p0 %d 8" % k])),
+        Opt("skip", "offset", ["3", "1", "5", "0", "8", "2", "2147483648", "4294967301", "9223372036854775807"], inp=refd(lambda k: ["c20in p0 %d 8" % k])),
         Opt("delay", "delay", ["100", "2000", "-50", "0", "27000000"],
             inp=lambda k: ["c20in p0 %d 4 pts_prog=%d pts_sys=%d dp=10" % (k, 1000 * k, 50000 + k)]),
         # align 1 only: with another alignment the flush of the real pipe does not
